@@ -46,6 +46,11 @@ V_INPUT(in_c19)
 
 static struct AutomationMgr M;
 
+/* float <-> bit pattern through a union (verif.h's memcpy versions cost CBMC ~0.1 s of symbolic execution each,
+ * and this harness converts several hundred fields) */
+static inline float    c19_f(uint32_t u) { union { uint32_t u; float f; } x; x.u = u; return x.f; }
+static inline uint32_t c19_u(float f)    { union { uint32_t u; float f; } x; x.f = f; return x.u; }
+
 /* ------------------------------------------------------------------------------------------------ recorder
  * ASSUMPTION (stated in props/C19.py): rtosc_message(buf, len, address, args, ...) writes the OSC message
  * <address, args, values> into buf - its contract, decided under C01. Here it only records what it was asked to
@@ -124,24 +129,24 @@ static void c19_setup(void)
         struct AutomationSlot *s = &M.slots[i];
         s->active = IN.s_active[i] & 1; s->used = IN.s_used[i] & 1;
         s->learning = IN.learning[i]; s->midi_cc = IN.midi_cc[i]; s->midi_nrpn = IN.midi_nrpn[i];
-        s->current_state = v_bits_f(IN.s_cur[i]);
+        s->current_state = c19_f(IN.s_cur[i]);
         memset(s->name, 0, sizeof s->name);
         s->name[0] = 'S'; s->name[1] = (char)('1' + i);
         s->automations = V_MALLOC(PS * sizeof(struct Automation));
         for(int j = 0; j < PS; j++) {
             struct Automation *a = &s->automations[j];
             a->used = IN.a_used[i][j] & 1; a->active = IN.a_active[i][j] & 1; a->relative = IN.a_rel[i][j] & 1;
-            a->param_base_value = v_bits_f(IN.a_base[i][j]);
+            a->param_base_value = c19_f(IN.a_base[i][j]);
             memset(a->param_path, 0, sizeof a->param_path);
             memcpy(a->param_path, C19_PATHS[i][j], 8);
             a->param_type = IN.a_type[i][j];
-            a->param_min = v_bits_f(IN.a_min[i][j]); a->param_max = v_bits_f(IN.a_max[i][j]);
-            a->param_step = v_bits_f(IN.a_step[i][j]);
+            a->param_min = c19_f(IN.a_min[i][j]); a->param_max = c19_f(IN.a_max[i][j]);
+            a->param_step = c19_f(IN.a_step[i][j]);
             a->map.control_scale = IN.a_scale[i][j]; a->map.control_type = IN.a_ctype[i][j];
             a->map.npoints = NCP; a->map.upoints = IN.a_upoints[i][j];
-            a->map.gain = v_bits_f(IN.a_gain[i][j]); a->map.offset = v_bits_f(IN.a_off[i][j]);
+            a->map.gain = c19_f(IN.a_gain[i][j]); a->map.offset = c19_f(IN.a_off[i][j]);
             a->map.control_points = V_MALLOC(NCP * sizeof(float));
-            for(int c = 0; c < NCP; c++) a->map.control_points[c] = v_bits_f(IN.a_cp[i][j][c]);
+            for(int c = 0; c < NCP; c++) a->map.control_points[c] = c19_f(IN.a_cp[i][j][c]);
         }
     }
 }
@@ -157,7 +162,7 @@ static void c19_snap(struct c19_q *q)
 {
     for(int i = 0; i < NS; i++) {
         q->rank[i] = M.slots[i].learning; q->cc[i] = M.slots[i].midi_cc; q->nrpn[i] = M.slots[i].midi_nrpn;
-        q->cur[i] = v_f_bits(M.slots[i].current_state);
+        q->cur[i] = c19_u(M.slots[i].current_state);
     }
     q->k = M.learn_queue_len;
     q->reg.parhi = M.NRPN.parhi; q->reg.parlo = M.NRPN.parlo; q->reg.valhi = M.NRPN.valhi; q->reg.vallo = M.NRPN.vallo;
